@@ -26,7 +26,7 @@ ASSUMPTIONS = [
 ]
 COMPONENTS = {"real": ["pyxel", "dask.local.get_async", "xarray", "numpy"], "stub": ["thread pool (SimPool)", "process pool semantics", "queue wait"]}
 BUDGET = {"quick": {"n": 96, "wall": 100, "determinism": 4}, "thorough": {"n": 2400, "wall": 1500, "determinism": 12}}
-REQUIRED_REACH = ["variant:calibration", "island_creation_order_varied", "contested_runs", "preempted_runs", "procs_runs", "rng_overlap_runs", "reordered_completion"]
+REQUIRED_REACH = ["variant:calibration", "island_creation_order_varied", "contested_runs", "preempted_runs", "procs_runs", "seed_lock_contended", "reordered_completion"]
 
 
 def generate(rng, tier):
@@ -118,6 +118,8 @@ def execute(scn, forced=None):
         stats["procs_runs"] = 1
     if overlap:
         stats["rng_overlap_runs"] = 1
+    if sim.get("stats", {}).get("seed_lock_wait"):
+        stats["seed_lock_contended"] = 1
     comp = [c for c in sim.get("completion", []) if "run_pipelines" in c]
     if comp != sorted(comp):
         stats["reordered_completion"] = 1
